@@ -205,6 +205,27 @@ def strat_overlap():
 def body_overlap(ctx, case):
     from pero_ocr.ocr_engine import line_ocr_engine as E
     a, b = case
+    if len(a) + len(b) >= 6 and (len(a) * 31 + len(b)) % 97 == 0:
+        # once in about a hundred cases: two noise-free windows of a long text line at small type (about 400 characters each,
+        # overlapping by 250-300): the true overlap is a perfect match, so the detected one must be perfect too (and positive)
+        import zlib
+        rs = np.random.RandomState(zlib.crc32((a + "|" + b).encode("utf8")) % (2 ** 31))
+        text = "".join(rs.choice(list("abcdefgh "), size=900))
+        w1, o_true = int(rs.randint(380, 440)), int(rs.randint(250, 300))
+        la, lb = text[:w1], text[w1 - o_true:w1 - o_true + int(rs.randint(380, 440))]
+        if rs.randint(0, 2):
+            # one misread character inside the overlap: the true overlap has an error rate of 1/o, every other suffix/prefix
+            # pair of this random text far more, so the arg min is the true overlap
+            k = int(rs.randint(5, o_true - 5))
+            lb = lb[:k] + "#" + lb[k + 1:]
+        d = int(ctx.must("find_best_overlap_raises", E.find_best_overlap, la, lb))
+        # arg min of the error rate, shortest on ties: a coincidental perfect match of a few characters (error rate 0) beats
+        # everything; otherwise the true overlap (error rate 0 or 1/o) - no other suffix/prefix pair of a random text comes close
+        perfect = [i for i in range(1, min(len(la), len(lb)) + 1) if la[-i:] == lb[:i]]
+        want_d = min(perfect) if perfect else o_true
+        ctx.check(d == want_d, "overlap_not_argmin_cer",
+                  lambda: "windows of %d and %d characters of a random text overlapping by %d (at most one misread character): detected %d, expected %d" % (len(la), len(lb), o_true, d, want_d))
+        ctx.event("windows_of_about_400_characters")
     o = ctx.must("find_best_overlap_raises", E.find_best_overlap, a, b)
     adm = overlap_def(a, b)
     ctx.check(int(o) in adm, "overlap_not_argmin_cer", lambda: "text1=%r text2=%r detected %r allowed %r" % (a, b, o, sorted(adm)))
